@@ -63,7 +63,8 @@ def vc_access(ctx):
     ok = False
     if dp:
         a, c = versionless(dp[0]), drop_lv(dp[1])
-        ok = a == ('param', 2) and is_call(c, 'get', self_adt='VClock') and versionless(c[2][0]) == ('param', 1) and versionless(c[2][1]) == ('param', 2)
+        cg = clock_get_of(c)
+        ok = a == ('param', 2) and cg is not None and versionless(cg[0]) == ('param', 1) and versionless(cg[1]) == ('param', 2)
     ctx.check(ok, 'dot', body, 'Dot{actor, get(actor)}', 'VClock::dot is %s, expected Dot{actor, self.get(actor)}' % fmt(normal(facts, r), 5))
 
     # iter / IntoIter::next: every entry becomes Dot{actor: key, counter: value}
@@ -143,6 +144,21 @@ def vc_access(ctx):
                 cr = drop_lv(subst(interp(facts, cb).ret, m)) if cb is not None else None
                 ok = bool(cr is not None and cr[0] == 'post' and is_call(cr[1], 'apply', self_adt='VClock') and cr[1][2][0][0] == 'acc'
                           and cr[1][2][1][0] == 'item')
+    if not ok:
+        # apply written out in the loop (or a shared private step inlined): every given dot stored into a clock that starts empty
+        from .vclock import inline_apply_sites
+        from .loops import loop_of_block
+        from ..ordset import Reach, Evaluator
+        for site in inline_apply_sites(facts, body, it, local_clock=True):
+            lp = loop_of_block(it, site['bb'])
+            src = as_item(site['gate']['dot'])
+            if site['errs'] or lp is None or lp.early_exits() or src is None or site['frame'] is None:
+                continue
+            if param_path(iter_source(src)[0]) == (1, ()) and not iter_source(src)[2] and not (set(iter_adaptors(src)) & LOSSY_ADAPTORS) \
+                    and Reach(facts, body, Evaluator(facts)).must_pass([site['frame'][1]]):
+                rr = drop_lv(it.ret)
+                ok = rr[0] in ('obj', 'call', 'post') and any(st == drop_lv(site['call'].term) or st[0] == 'call' and call_name(st) in ('default', 'new')
+                                                              for st in subterms(rr))
     ctx.check(ok, 'from_iter', body, 'every dot of the iterator applied to an empty clock',
               'VClock::from_iter does not apply every given dot to an empty clock')
     fb = None
@@ -161,6 +177,10 @@ def vc_access(ctx):
             ins = [c for c in interp(facts, fb).calls.values() if call_name(c.term) == 'insert' and len(c.args) == 3
                    and versionless(c.args[1].val) == ('field', ('param', 1), 'actor') and versionless(c.args[2].val) == ('field', ('param', 1), 'counter')]
             ok = len(ins) == 1 and r[0] == 'agg' and r[1] == VCLOCK
+        if not ok:
+            from .vclock import inline_apply_sites
+            sites_ = [x for x in inline_apply_sites(facts, fb, interp(facts, fb), local_clock=True) if not x['errs'] and x['frame'] is None]
+            ok = len(sites_) == 1 and versionless(sites_[0]['gate']['dot']) == ('param', 1) and r[0] == 'obj' and len(sites_[0]['res']) == 3
         ctx.check(ok, 'from-dot', fb, 'the clock holding exactly the given dot', 'VClock::from(dot) is %s, expected an empty clock with the dot applied' % fmt(r, 5))
 
 
@@ -182,10 +202,13 @@ def read_plain(ctx):
     body = ctx.inherent(GSET, 'read')
     r = versionless(interp(facts, body).ret)
     ok = r == ('field', ('param', 1), 'value')
-    if not ok and is_call(r, 'collect') and r[2]:
-        # a copy built element by element: every element of value, none dropped or transformed
-        base, kind, clo = iter_source(r[2][0])
-        ok = param_path(base) == (1, ('value',)) and not clo and not (set(iter_adaptors(r[2][0])) & LOSSY_ADAPTORS)
+    if not ok:
+        # a copy built element by element (collect, or a loop filling a fresh set): every element of value, none dropped or transformed
+        from .loops import collect_source
+        cs = collect_source(facts, body, interp(facts, body), interp(facts, body).ret)
+        if cs is not None:
+            base, kind, clo = iter_source(cs)
+            ok = param_path(base) == (1, ('value',)) and not clo and not (set(iter_adaptors(cs)) & LOSSY_ADAPTORS)
     ctx.check(ok, 'GSet::read', body, 'returns value', 'GSet::read returns %s, expected self.value' % fmt(r, 4))
     body = ctx.inherent(GSET, 'contains')
     r = drop_lv(interp(facts, body).ret)
@@ -209,6 +232,10 @@ def list_read(ctx):
         body = ctx.inherent(LIST, name)
         r = drop_lv(interp(facts, body).ret)
         src = r[2][0] if is_call(r, 'collect') and r[2] else r
+        if not (is_call(r, 'collect') and r[2]):
+            from .loops import collect_source
+            cs = collect_source(facts, body, interp(facts, body), interp(facts, body).ret)
+            src = cs if cs is not None else src
         base, k, clo = iter_source(src)
         rev = set(iter_adaptors(src)) & {'rev'}
         ok = param_path(base) == (1, ('seq',)) and k == kind and not clo and not (set(iter_adaptors(src)) & LOSSY_ADAPTORS) and not rev
